@@ -64,6 +64,8 @@ Next ==
      /\ Bump(3)
      /\ CASE e.ev = "sx" ->
               /\ Bump(4)
+              \* a decode that panics never delivers its picture: the background thread dies, the poll skips the failed join
+              /\ Check(e.r # "panic", "C14", "DecodeLost", l, [site |-> IF Has(e, "site") THEN e.site ELSE "", n |-> Len(e.payload), tail |-> SubSeq(e.payload, IF Len(e.payload) > 12 THEN Len(e.payload) - 11 ELSE 1, Len(e.payload))])
               /\ Check(e.r # "ok" \/ Rectangular(e.w, e.h, e.len), "C14", "Rectangular", l, [w |-> e.w, h |-> e.h, len |-> e.len, payload |-> e.payload])
               /\ DecodeAgrees(Decode(e.payload), e)
               /\ UNCHANGED g
